@@ -85,6 +85,20 @@ def member13(term, i, W):
     return member(term, i, W, hm=lambda c, name: W.has(c, name))
 
 
+def member_fresh(term):
+    """documented meaning for an instance of a fresh class that derives from object only and has none of the probed methods"""
+    k = term[0]
+    if k == "obj":
+        return True
+    if k == "U":
+        return any(member_fresh(t) for t in term[1:])
+    if k == "I":
+        return all(member_fresh(t) for t in term[1:])
+    if k == "SS":
+        return term[1][0] == "obj"
+    return False          # a harness class, Exactly[...], HasMethod, Deferred harness classes
+
+
 def tstr(term):
     if term[0] == "Def":
         return f"Deferred['{DEFMOD}.K{term[1]}']"
@@ -120,15 +134,23 @@ def make_run(W, shape, known_active=None):
         T = totuple(shape["t"])
         c = shape["c"]
 
+        liar = c == "liar"
+        if liar:
+            c = n            # type(v) is a plain class below object only; v.__class__ claims to be K1 (proxies, mocks): dispatch is on type(v)
+
         def run(ctx):
             FINDER.world = W
             try:
                 TT = build13(T, W)
-                cls = W.cls(c)
-                inst = W.inst[c] if c != n else object()
+                if liar:
+                    Liar = type("Liar", (), {"__class__": property(lambda self: W.K[1])})
+                    cls, inst = Liar, Liar()
+                else:
+                    cls = W.cls(c)
+                    inst = W.inst[c] if c != n else object()
                 got = bool(subclasscheck(cls, TT))
                 refl = bool(subclasscheck(TT, TT))
-                inst_ok = bool(isinstance(inst, TT))
+                inst_ok = bool(isinstance(inst, TT)) if not liar else None
                 # end to end: method on T (priority 0) over a fallback on object (priority -1)
                 hs, LOG, ns = _MS.instantiate(W)
                 hs[0].__annotations__ = {"x": build13(T, W)}
@@ -142,11 +164,12 @@ def make_run(W, shape, known_active=None):
             finally:
                 sys.modules.pop(DEFMOD, None)
                 sys.modules.pop(DEFMOD + ".inner", None)
-            m = member13(T, c, W)
+            m = z3.BoolVal(member_fresh(T)) if liar else member13(T, c, W)
             ran_t = out == ("ran", 0)
             sane = out in (("ran", 0), ("ran", 1))
-            post = z3.And(z3.BoolVal(refl and sane), m == z3.BoolVal(got), m == z3.BoolVal(inst_ok), m == z3.BoolVal(ran_t))
-            info = dict(type=tstr(T), value_class=f"K{c}" if c != n else "object", subclasscheck=got, isinstance=inst_ok,
+            post = z3.And(z3.BoolVal(refl and sane), m == z3.BoolVal(got), (m == z3.BoolVal(inst_ok)) if inst_ok is not None else z3.BoolVal(True),
+                          m == z3.BoolVal(ran_t))
+            info = dict(type=tstr(T), value_class=("a class whose instances report __class__ = K1" if liar else f"K{c}" if c != n else "object"), subclasscheck=got, isinstance=inst_ok,
                         dispatch=list(out), reflexive=refl)
             return Verdict(post, (), info, ["member" if got else "non-member"], nontrivial=got)
 
@@ -224,7 +247,7 @@ def generics(n):
 
 def gen_shapes(tier, seed):
     n, depth = (3, 2) if tier == "quick" else (4, 2)
-    shapes = [dict(kind="member", n=n, t=t, c=c) for t in universe(n, depth) for c in range(n + 1)]
+    shapes = [dict(kind="member", n=n, t=t, c=c) for t in universe(n, depth) for c in list(range(n + 1)) + ["liar"]]
     g = generics(n)
     shapes += [dict(kind="pair", n=n, s=s, t=t) for s in g for t in g]
     K = [("K", i) for i in range(n)]
